@@ -222,6 +222,22 @@ func (ge *GuardEngine) definitelyRejects(fi *fnInfo, b *ssa.BasicBlock, rv ssa.V
 			if _, ok := x.X.(*ssa.Global); ok {
 				return true // package-level error value
 			}
+			if al, ok := ge.pv.resolve(x.X).(*ssa.Alloc); ok {
+				whole, _ := ge.pv.storesTo(al, -1)
+				if len(whole) > 0 {
+					all := true
+					for _, w := range whole {
+						if !ge.definitelyRejects(fi, b, w, depth+1) {
+							all = false
+						}
+					}
+					return all
+				}
+			}
+		}
+	case *ssa.FreeVar:
+		if r := ge.pv.resolve(x); r != x {
+			return ge.definitelyRejects(fi, b, r, depth+1)
 		}
 	case *ssa.Phi:
 		for _, e := range x.Edges {
@@ -621,6 +637,7 @@ type GuardReq struct {
 	Weak    bool     // a weak (conjunct) guard discharges the requirement
 	Clause  string   // the clause of the property statement this row comes from
 	MinHits int      // number of distinct guards (by position) that must satisfy the row (default 1)
+	LoopExitOK bool  // the enclosing loop may legitimately stop early before reaching the guard (break)
 }
 
 type guardCache struct {
@@ -688,7 +705,7 @@ func (ge *GuardEngine) CheckReq(c *Ctx, rule string, req GuardReq, guards []Guar
 			problems = append(problems, fmt.Sprintf("%s: the comparison does not by itself lead to rejection (only in conjunction with other conditions)", where))
 			continue
 		}
-		if why := ge.siteProblems(cd.g, ctxRes); why != "" {
+		if why := ge.siteProblemsOpt(cd.g, ctxRes, req.LoopExitOK); why != "" {
 			problems = append(problems, fmt.Sprintf("%s: %s", where, why))
 			continue
 		}
@@ -810,6 +827,10 @@ func ctxAllowed(descs []string, allowed []*regexp.Regexp, operands []string) []b
 // siteProblems checks, at every site of the guard's call chain, that (1) no unexpected condition
 // dominates the site and (2) no accepting path through the enclosing scopes avoids the site.
 func (ge *GuardEngine) siteProblems(g Guard, allowed []*regexp.Regexp) string {
+	return ge.siteProblemsOpt(g, allowed, false)
+}
+
+func (ge *GuardEngine) siteProblemsOpt(g Guard, allowed []*regexp.Regexp, loopExitOK bool) string {
 	operands := []string{g.L, g.R}
 	for _, st := range g.Sites {
 		fi := ge.info(st.Fn)
@@ -834,7 +855,7 @@ func (ge *GuardEngine) siteProblems(g Guard, allowed []*regexp.Regexp) string {
 		if g.Weak && st.Block == g.Block && st.Fn == g.Fn {
 			continue // a conjunct is by construction not on every path; its context was checked above
 		}
-		if path := ge.bypassPath(fi, st.Block, legit); path != "" {
+		if path := ge.bypassPath(fi, st.Block, legit); path != "" && !(loopExitOK && strings.HasSuffix(path, "(loop left early)")) {
 			return "guard can be bypassed — an accepting path avoids it: " + path
 		}
 	}
